@@ -64,7 +64,10 @@ Definition apply_op (st : bstate) (o : op) : bstate :=
   | [] => (cur, true)
   | new =>
     match o with
-    | ONe _ => match simplify_range_column new with [] => (new, true) | s => (s, false) end
+    | ONe l =>
+      (* the non-integral-literal branch of NotEquals returns before the SimplifyRangeColumn step *)
+      if negb (lit_integral l) then (new, false) else
+      match simplify_range_column new with [] => (new, true) | s => (s, false) end
     | _ => (new, false)
     end
   end.
